@@ -29,7 +29,7 @@ def run_c01(ctx):
             return ctx.tlc("ExprCheck", cfg, overrides=ov, workers=8, timeout=6000)["out"]
         jobs.append(job)
     outs = ctx.parallel(jobs, width=2)
-    num, depth, bound = (2500, 60, 40) if thorough else (60, 40, 20)
+    num, depth, bound = (250, 60, 40) if thorough else (60, 40, 20)
     info = ctx.tlc("ExprCheck", "expr_deep", name="expr_deep_sim", overrides={"Bound": bound}, workers=8,
                    simulate="num=%d" % num, depth=depth, timeout=6000, must_finish=False)
     outs.append(info["out"])
